@@ -35,6 +35,10 @@ func implCompute(raw json.RawMessage) (any, error) {
 	if err := json.Unmarshal(raw, &in); err != nil {
 		return nil, err
 	}
+	return withCap(&in, func() (any, error) { return implCompute1(in) })
+}
+
+func implCompute1(in RunIn) (any, error) {
 	w, ctx, err := setup(&in)
 	if err != nil {
 		return nil, err
